@@ -7,23 +7,28 @@ namespace StepModel.PyAgg
 inductive Kind | array | list | bag | set
   deriving DecidableEq, Repr
 
-/-- A base type / the type of a value: a simple type (tag = which class the Python object is an instance of), or an
-aggregate of a simple type (`ARRAY/LIST/BAG/SET OF <simple>`: the class of the aggregate object and its own base type,
-which is all `check_type` looks at for an aggregate). -/
+/-- A base type / the type of a value: a finite tree — a simple type (tag = which class the Python object is an
+instance of) or an aggregate kind OF a base type (`ARRAY OF LIST OF SET OF REAL` = `agg array (agg list (agg set (simple 2)))`). -/
 inductive Ty
   | simple (t : Nat)
-  | agg (k : Kind) (b : Nat)
+  | agg (k : Kind) (b : Ty)
   deriving DecidableEq, Repr
 
 instance : OfNat Ty n := ⟨.simple n⟩
 
 /-- An element value: its type and a payload.  Two values are equal (`==`, `in`, hashing) iff type and payload are
 equal: for simple values the payload is the number/string, for an aggregate object it is the object's identity
-(the aggregate classes define no `__eq__`/`__hash__`). -/
+(the aggregate classes define no `__eq__`/`__hash__`).  Identity of the *base-type object* of an aggregate element
+(relevant when `check_type` compares base types by identity): by the harness's convention an element with an even
+payload whose base type equals the declared element type's base type is built over the declaration's own base-type
+object, every other element over a fresh one (`Val.sharesDeclaredBase`). -/
 structure Val where
   ty : Ty
   v : Nat
   deriving DecidableEq, Repr
+
+/-- the element was built over the very base-type object of the declaration (see `Val`) -/
+def Val.sharesDeclaredBase (x : Val) : Bool := x.v % 2 == 0
 
 inductive Logical | t | f | u
   deriving DecidableEq, Repr
